@@ -199,6 +199,9 @@ func blockCandidates(m *ledger.Model, inst func(string) *coin.Transaction) []blo
 			add("valid3[pay-B-A,pay-A-B,pay-G-A]+1h", mkBlock(m, []coin.Transaction{*y, *x, *a}, 3600, idP.Sec, nil))
 		}
 	}
+	if f := inst("fanout-200-G"); f != nil && m.HardInBlock(f) == "" {
+		add("valid-fanout200[fanout-200-G]+10s", mkBlock(m, []coin.Transaction{*f}, 10, idP.Sec, nil))
+	}
 	add("same-txn-twice", mkBlock(m, []coin.Transaction{t1, t1}, 10, idP.Sec, nil))
 	// second transaction spends an output created by the first one in the same block
 	{
